@@ -24,7 +24,7 @@ class WrapNew11Relocation(Relocation):
 
     def apply(self, sym_value, data, reloc_value):
         offset = sym_value - (align(reloc_value, 2) + 4)
-        assert offset in range(-2048, 2046, 2)
+        assert offset in range(-2048, 2048, 2)
         imm11 = wrap_negative(offset >> 1, 11)
         bv = BitView(data, 0, 2)
         bv[0:11] = imm11
@@ -39,7 +39,7 @@ class Rel8Relocation(Relocation):
     def apply(self, sym_value, data, reloc_value):
         assert sym_value % 2 == 0
         offset = sym_value - (align(reloc_value, 2) + 4)
-        assert offset in range(-256, 254, 2), str(offset)
+        assert offset in range(-256, 256, 2), str(offset)
         imm8 = wrap_negative(offset >> 1, 8)
         data[0] = imm8
         return data
@@ -56,7 +56,7 @@ class BlImm11Relocation(Relocation):
     def apply(self, sym_value, data, reloc_value):
         assert sym_value % 2 == 0
         offset = sym_value - (align(reloc_value, 2) + 4)
-        assert offset in range(-16777216, 16777214, 2), str(offset)
+        assert offset in range(-16777216, 16777216, 2), str(offset)
         imm32 = wrap_negative(offset >> 1, 32)
         imm11 = imm32 & 0x7FF
         imm10 = (imm32 >> 11) & 0x3FF
@@ -79,7 +79,7 @@ class BImm11Imm6Relocation(Relocation):
     def apply(self, sym_value, data, reloc_value):
         assert sym_value % 2 == 0
         offset = sym_value - (align(reloc_value, 2) + 4)
-        assert offset in range(-1048576, 1048574, 2), str(offset)
+        assert offset in range(-1048576, 1048576, 2), str(offset)
         imm32 = wrap_negative(offset >> 1, 32)
         imm11 = imm32 & 0x7FF
         imm6 = (imm32 >> 11) & 0x3F
